@@ -89,3 +89,33 @@ Theorem C10_diamond_is_acyclic :
   acyclic_segments diamond (fun _ => 0%nat).
 Proof. exact diamond_is_acyclic. Qed.
 Print Assumptions C10_diamond_is_acyclic.
+
+(* ---- "at any depth including beyond 20 levels": the chains as Go implements them ----
+   The model threads immutable lists.  The code threads slice headers BY VALUE over backing arrays that a caller, its
+   callee and the callee's siblings share (preallocated for 20 entries, reallocated by append beyond).  Slices.v models
+   exactly that (headers, a heap of arrays, append writing in place or copying), and the walk over the shared arrays
+   shows every node the chain that the immutable walk shows it -- for every reference tree, every preallocated capacity
+   and every growth policy of append.  *)
+From LD Require Import Slices SlicesSpec TablesChain.
+From LDGen Require Import Tables.
+
+Theorem C10_shared_arrays_implement_the_chain : forall (grow : nat -> nat) (prealloc : nat) (t : tree),
+  let '(_, seen, completed) := walk grow (make_heap prealloc) (make_slice prealloc) t in
+  (seen, completed) = pwalk [] t.
+Proof. exact shared_arrays_implement_the_chain. Qed.
+Print Assumptions C10_shared_arrays_implement_the_chain.
+
+(* from any well-formed header, and the caller's view of the heap is left as it was *)
+Theorem C10_callee_leaves_callers_chain_intact : forall grow t h sl, wf h sl ->
+  let '(h', seen, completed) := walk grow h sl t in
+  (seen, completed) = pwalk (read h sl) t /\ read h' sl = read h sl.
+Proof. exact callee_leaves_chain_intact. Qed.
+Print Assumptions C10_callee_leaves_callers_chain_intact.
+
+(* the two assumptions of that model, read from the source on every run: chain records are received by value (never
+   through a pointer, never with their address taken) and every write to a chain is `x.f = append(x.f, e)` *)
+Theorem C10_chain_discipline_in_source :
+  forallb (fun w => String.eqb (snd w) "append-self") chain_writes_src &&
+  forallb (fun w => String.eqb (snd w) "value") chain_headers_src = true.
+Proof. exact chain_discipline_in_source. Qed.
+Print Assumptions C10_chain_discipline_in_source.
